@@ -45,6 +45,7 @@ class Scenario:
         self.res = 0.01
         self.path = []        # list of tuples of floats (w values)
         self.goals = []
+        self.oneway = None    # (ylo, yhi): direction-sensitive validator — inside the band no motion may go in +x direction
 
     def space_tokens(self):
         if self.kind == "se2":
@@ -57,6 +58,8 @@ class Scenario:
         for lo, hi in self.boxes:
             t += [B(x) for x in lo] + [B(x) for x in hi]
         t += ["res", B(self.res)]
+        if self.oneway:
+            t += ["oneway", B(self.oneway[0]), B(self.oneway[1])]
         return " ".join(t)
 
     def lvs(self):
@@ -357,46 +360,43 @@ def oracle(sc, routine, line, res, objective, goals_used):
         if not (goals_used and out_bits[-1] in goal_bits):
             fails.append(("keeps_last", "last state is neither the input's last state nor a goal state"))
     # --- classification of every output motion
-    # partialShortcutPath calls checkMotion(s0, s1) BEFORE it orders the two sampled points along the path, so the
-    # validated pair may enter the path reversed; in the (symmetric) spaces used here that is the same motion
-    cm_true_set = set()
-    for a, b, ans in res["cm"]:
-        if ans:
-            cm_true_set.add((a, b))
-            cm_true_set.add((b, a))
+    # DIRECTION-AWARE: "validated" means checkMotion(a, b) answered true for THIS orientation; an input motion or a piece of a
+    # motion counts in its own direction only
+    cm_true_set = set((a, b) for a, b, ans in res["cm"] if ans)
     in_pairs = set(zip(inp_bits[:-1], inp_bits[1:]))
     segs = [(fl(a), fl(b)) for a, b in in_pairs] + [(fl(a), fl(b)) for a, b in cm_true_set]
     margin = sc.lvs()
+
+    def classify(p, x, y, directed):
+        if p in in_pairs or (not directed and (p[1], p[0]) in in_pairs):
+            return "a"
+        if p in cm_true_set or (not directed and (p[1], p[0]) in cm_true_set):
+            return "c"
+        if routine in REMOVERS:
+            return None
+        for a, b in segs:
+            tx = on_segment(sc, x, a, b, tol)
+            if tx is None:
+                continue
+            if p[0] == p[1]:
+                return "b"
+            ty = on_segment(sc, y, a, b, tol)
+            if ty is None:
+                continue
+            if not directed or tx <= ty + 1e-9:
+                return "b"
+        return None
     for i in range(len(out_bits) - 1):
         p = (out_bits[i], out_bits[i + 1])
         x, y = out[i], out[i + 1]
-        cls = None
-        if p in in_pairs:
-            cls = "a"
-        elif p in cm_true_set:
-            cls = "c"
-        elif routine in REMOVERS:
-            cls = None
-        else:
-            if p[0] == p[1]:
-                # zero-length motion: fine if the state lies on some known segment
-                for a, b in segs:
-                    if on_segment(sc, x, a, b, tol) is not None:
-                        cls = "b"
-                        break
-            else:
-                for a, b in segs:
-                    tx = on_segment(sc, x, a, b, tol)
-                    if tx is None:
-                        continue
-                    ty = on_segment(sc, y, a, b, tol)
-                    if ty is None:
-                        continue
-                    cls = "b"
-                    break
+        cls = classify(p, x, y, True)
         if cls is None:
-            fails.append(("only_validated_motions", "output motion %d is not an input motion, a piece of an input or validated "
-                          "motion, or a pair checkMotion answered true for" % i))
+            if classify(p, x, y, False) is not None:
+                fails.append(("only_validated_motions", "output motion %d was validated (or is a piece of a motion that exists) only in the REVERSE "
+                              "direction: checkMotion(b, a) was asked, the path contains (a, b)" % i, "validated-in-reverse-direction"))
+            else:
+                fails.append(("only_validated_motions", "output motion %d is not an input motion, a piece of an input or validated "
+                              "motion, or a pair checkMotion answered true for" % i))
             break
         if cls != "c":
             # independent re-validation: a motion that passed the discrete check never enters a box by more than the
@@ -405,6 +405,8 @@ def oracle(sc, routine, line, res, objective, goals_used):
                 if seg_hits_box(x, y, lo, hi, sc.pdim, margin):
                     fails.append(("revalidate", "output motion %d crosses an obstacle (deeper than the checking resolution)" % i))
                     break
+            if sc.oneway and y[0] > x[0] + 1e-9 and min(x[1], y[1]) <= sc.oneway[1] - 1e-9 and max(x[1], y[1]) >= sc.oneway[0] + 1e-9:
+                fails.append(("revalidate", "output motion %d goes the wrong way through the one-way zone" % i))
     # --- per routine class
     base = routine
     rel = 1e-9
@@ -611,9 +613,10 @@ def run_scenario(ck, hbin, hchk, sc, ops, tag, seedtag):
             ck.count("changed:" + routine)
         if not res["chk"]:
             ck.count("result-check-false:" + routine)
-        fail_issues = [dict(kind="oracle", routine=routine, clause=clause, detail=detail, objective=objective,
-                            cls="termination condition fired mid-run (F56 window)" if (clause == "simplify_true_implies_check" and res.get("ptc_fired")) else None,
-                            rnd=rnd, script=hdr + [line], observed=[o]) for clause, detail in fails]
+        fail_issues = [dict(kind="oracle", routine=routine, clause=f_[0], detail=f_[1], objective=objective,
+                            cls="termination condition fired mid-run (F56 window)" if (f_[0] == "simplify_true_implies_check" and res.get("ptc_fired"))
+                            else (f_[2] if len(f_) > 2 else None),
+                            rnd=rnd, script=hdr + [line], observed=[o]) for f_ in fails]
         if not rnd and routine in LOCKSTEP:
             pending_fails[line] = fail_issues      # judged after the model run (an index error explains them)
         else:
@@ -646,9 +649,14 @@ def run_scenario(ck, hbin, hchk, sc, ops, tag, seedtag):
             if routine == "pshort":
                 # the driver prints the model of the current code, then the model of the code before fix b725c3169 (F55)
                 mc, _, mo = m.partition(" | old ")
-                mc, mo = canon(mc), canon(mo)
+                mo, _, mord = mo.partition(" | ord ")
+                mc, mo, mord = canon(mc), canon(mo), canon(mord)
                 if mc == "idx-error":
                     issues.append(idx_err())
+                elif impl_c != mc and impl_c == mord:
+                    # the tree validates in path order (proposed fix F170 applied): the transcript holds the ORDERED pair
+                    ck.count("pshort:agrees-with-the-F170-fixed-variant")
+                    issues += pending_fails.get(line, [])
                 elif impl_c == mc:
                     if mc != mo:
                         ck.count("pshort:input-on-which-the-pre-F55-code-differs")
@@ -927,7 +935,8 @@ def run_whole(ck, hbin, hchk, sc, rng, tag):
         ck.case((tag, "whole", idx, line[:40]), changed)
         if changed:
             ck.count("changed:whole-" + routine)
-        issues += [dict(kind="oracle", routine=routine, clause=c_, detail=d_, objective=objective, script=hdr + [line], observed=[o]) for c_, d_ in fails]
+        issues += [dict(kind="oracle", routine=routine, clause=f_[0], detail=f_[1], cls=(f_[2] if len(f_) > 2 else None), objective=objective,
+                        script=hdr + [line], observed=[o]) for f_ in fails]
         dl = line
         if routine == "bspline":
             dl += " " + " ".join(res.get("iv_tokens", ["iv", "0"]))
@@ -1001,6 +1010,40 @@ def gen_perturb_band(rng):
     return sc, ops
 
 
+def gen_perturb_dense(rng):
+    """directed for perturbPath's FAR splice branch (three or more vertices strictly between `before` and `after`, neither snapped):
+    a DENSE vertical path (13 vertices 0.3 apart, 12 segments: within the range where std::sort is insertion sort) through the toll
+    band, the perturbed point is the vertex in the middle of the band, the step window (1.7 .. 2.6) covers 5-8 vertices and ends strictly
+    inside segments; samples above / below the band make the detour cheaper, so the perturbation is accepted"""
+    sc = Scenario()
+    sc.kind, sc.pdim, sc.w = "rv2", 2, 2
+    sc.res = 0.01
+    x = rng.choice([rng.uniform(0.6, 2.6), rng.uniform(4.9, 9.4)])
+    off = rng.uniform(-0.04, 0.04)
+    ys = [4.7 + off + 0.3 * k for k in range(13)]
+    path = [(x + rng.uniform(-0.01, 0.01), v) for v in ys]
+    sc.path = path
+    sc.goals = [path[-1]]
+    n = len(path)
+    seg = [dist(sc, path[i], path[i + 1]) for i in range(n - 1)]
+
+    def sc_cost(q):
+        return 1.0 + (24.0 if 3.0 < q[0] < 4.5 else 0.0) + (11.0 if 6.0 < q[1] < 7.0 else 0.0)
+    cost = [0.5 * seg[i] * (sc_cost(path[i]) + sc_cost(path[i + 1])) for i in range(n - 1)]
+    k0 = max(range(n - 1), key=lambda i: (cost[i], -i))
+    kb = k0 + 1
+    back = sum(seg)
+    ops = []
+    for _ in range(12):
+        bias = seg[k0] * rng.choice([1.0, 1.0, 0.5, 0.8])
+        h = 1.0 - bias / back
+        step = rng.choice([1.7, 2.0, 2.2, 2.6, 2.0, 2.3])
+        smp = [(min(max(x + rng.uniform(-0.6, 0.6), 0.1), 9.9), rng.choice([rng.uniform(8.8, 9.6), rng.uniform(3.4, 4.2)])) for _ in range(3)]
+        ops.append(("perturb", " ".join(["perturbs", "toll", B(step), str(rng.choice([1, 1, 2])), "0", B(rng.choice([0.0, 0.0, 0.002])), "3"] +
+                                        [B(h)] * 3 + ["3"] + [B(v) for q in smp for v in q])))
+    return sc, ops
+
+
 def run_whole_ops(ck, hbin, sc, ops, tag):
     """lock-step + oracle for prepared whole-routine ops (perturbs / bgoal / bsplines lines)"""
     issues = []
@@ -1025,7 +1068,8 @@ def run_whole_ops(ck, hbin, sc, ops, tag):
         if changed:
             ck.count("changed:whole-" + routine)
             ck.count("changed:whole-%s:%+d-states" % (routine, len(res["out"]) - len(sc.path)))
-        issues += [dict(kind="oracle", routine=routine, clause=c_, detail=d_, objective=objective, script=hdr + [line], observed=[o]) for c_, d_ in fails]
+        issues += [dict(kind="oracle", routine=routine, clause=f_[0], detail=f_[1], cls=(f_[2] if len(f_) > 2 else None), objective=objective,
+                        script=hdr + [line], observed=[o]) for f_ in fails]
         dl = line + " " + " ".join(res["cm_tokens"])
         dscript.append(dl)
         dmap.append((routine, line, res, o, dl))
@@ -1041,6 +1085,46 @@ def run_whole_ops(ck, hbin, sc, ops, tag):
             issues.append(dict(kind="corr", routine=routine, clause="lockstep", detail="whole-routine model and implementation differ",
                                script=hdr + [line], dscript=dscript[:4] + [dl], observed=[res["prefix"]], model=[m]))
     return issues
+
+
+def gen_oneway(rng):
+    """directed, DIRECTION-SENSITIVE validity: a one-way zone (the band ylo <= y <= yhi may not be crossed in +x direction; the harness's
+    motion validator enforces it on top of the discrete check).  The path runs right below the band, crosses it vertically and runs left
+    above it, so it is valid; a chord from an early point to a later point further RIGHT is invalid, its reverse is valid."""
+    sc = Scenario()
+    sc.kind, sc.pdim, sc.w = "rv2", 2, 2
+    sc.res = 0.01
+    ylo, yhi = 4.0 + rng.uniform(0, 0.5), 6.0 - rng.uniform(0, 0.5)
+    sc.oneway = (ylo, yhi)
+    xl, xr = rng.uniform(0.5, 2.0), rng.uniform(8.0, 9.5)
+    yb, yt = rng.uniform(1.0, 3.0), rng.uniform(7.0, 9.0)
+    nb, nt = rng.range(1, 4), rng.range(1, 4)
+    path = [(xl + (xr - xl) * k / nb, yb + rng.uniform(-0.3, 0.3) * (0 < k < nb)) for k in range(nb + 1)]
+    path += [(xr, yt)]
+    path += [(xr - (xr - xl) * k / nt, yt + rng.uniform(-0.3, 0.3) * (k < nt)) for k in range(1, nt + 1)]
+    sc.path = path
+    sc.goals = [path[-1], (xl + 0.5, yt - 0.5)]
+    L = path_len(sc, path)
+    ops = []
+    for _ in range(12):
+        ops.append(("pshort", "rnd %d len pshort %d %d %s %s" % (rng.below(100000), rng.choice([0, 10, 30]), 0, B(1.0), B(rng.choice([0.005, 0.0, 0.05])))))
+    for _ in range(4):
+        us = [rng.unit() for _ in range(40)]
+        ops.append(("pshort", " ".join(["pshort", "20", "0", B(1.0), B(rng.choice([0.005, 0.0, 0.05])), "40"] + [B(x) for x in us])))
+    for _ in range(3):
+        sd = rng.below(100000)
+        ops.append(("reduce", "rnd %d len reduce 0 0 %s" % (sd, B(1.0))))
+        ops.append(("collapse", "rnd %d len collapse 0 0" % sd))
+        ops.append(("rope", "rnd %d len rope %s %s" % (sd, B(rng.choice([L / 6, 1.0])), B(0.1))))
+        ops.append(("bspline", "rnd %d len bspline 3 %s" % (sd, B(1e-3))))
+        ops.append(("perturb", "rnd %d toll perturb %s 0 0 %s" % (sd, B(rng.choice([1.0, 2.0])), B(0.005))))
+        ops.append(("bettergoal", "rnd %d len bettergoal 1000000 20 %s %s" % (sd, B(1.0), B(0.005))))
+        ops.append(("simplifymax", "rnd %d len simplifymax" % sd))
+    raws = [rng.below(1 << 30) for _ in range(60)]
+    ops.append(("reduce", " ".join(["reduce", "30", "0", B(1.0), "60"] + [str(x) for x in raws])))
+    ops.append(("collapse", "collapse 0 0"))
+    ops.append(("rope", "rope %s %s" % (B(L / 5), B(0.1))))
+    return sc, ops
 
 
 def gen_toll_scenario(rng):
@@ -1208,7 +1292,11 @@ def run_corpus_script(ck, hbin, name, script, hchk=None):
     vals = [F(x) for x in env[ib + 3:ib + 3 + 2 * pd * k]]
     for j in range(k):
         sc.boxes.append((tuple(vals[2 * pd * j:2 * pd * j + pd]), tuple(vals[2 * pd * j + pd:2 * pd * (j + 1)])))
-    sc.res = F(env[-1])
+    ir = env.index("res")
+    sc.res = F(env[ir + 1])
+    if "oneway" in env:
+        io = env.index("oneway")
+        sc.oneway = (F(env[io + 1]), F(env[io + 2]))
     pt = script[2].split()
     sc.path = [fl(s) for s in chunk(pt[2:], sc.w)]
     rest = script[3:]
@@ -1366,6 +1454,14 @@ def run(ck):
             bsc, bops = gen_perturb_band(ck.rng.fork("band%d" % j))
             ck.count("scenario:perturb-band")
             futs.append(ex.submit(run_whole_ops, ck, hbin, bsc, bops, "band%d" % j))
+        for j in range(20 if ck.tier == "quick" else 150):
+            dsc, dops = gen_perturb_dense(ck.rng.fork("dense%d" % j))
+            ck.count("scenario:perturb-dense")
+            futs.append(ex.submit(run_whole_ops, ck, hbin, dsc, dops, "dense%d" % j))
+        for j in range(12 if ck.tier == "quick" else 80):
+            osc, oops = gen_oneway(ck.rng.fork("oneway%d" % j))
+            ck.count("scenario:one-way-zone")
+            futs.append(ex.submit(run_scenario, ck, hbin, hchk, osc, oops, "oneway", j))
         for j in range(8 if ck.tier == "quick" else 40):
             csc, cops = gen_corner_scenario(ck.rng.fork("corner%d" % j))
             ck.count("scenario:corner-zigzag")
